@@ -28,13 +28,13 @@ def getPath : List String → Val → Option Val
     non-negative index: arrays are padded); what does not exist yet is created -/
 def writable : List String → Val → Bool
   | [], _ => true
-  | [last], .doc _ => true
+  | [_], .doc _ => true
   | [last], .arr _ => (match pyInt? last with | some i => decide (0 ≤ i) | none => false)
   | [_], _ => false
   | p :: ps, .doc fs =>
     (match dget p fs with
      | some v => writable ps v
-     | none => ps.all (fun q => true))
+     | none => true)      -- a missing intermediate: the rest of the path is created
   | p :: ps, .arr xs =>
     (match pyInt? p with
      | some i => if i < 0 then false else
